@@ -24,7 +24,9 @@ CLAIM = dict(
     note="Not decided: the history-level bound (UTXO total <= sum of subsidies), arithmetic inside GetValueOut, cache/reorg behaviour (C02/C09/C15).",
     ref="DESIGN.md §3 C01")
 
-MR_IN = r"MoneyRange\(inputs\.AccessCoin\(tx\.vin\[i\]\.prevout\)\.out\.nValue\)"
+INP = r"(tx\.vin\[i\]|each\(tx\.vin\))"
+MR_IN = r"MoneyRange\(inputs\.AccessCoin\(" + INP + r"\.prevout\)\.out\.nValue\)"
+VINLOOP = r"(for\(0; i < tx\.vin\.size\(\)\)|each\(tx\.vin\))"
 
 
 def check(ctx):
@@ -44,7 +46,7 @@ def check(ctx):
              "BELOW": "nValueIn < tx.GetValueOut()", "FEERANGE": re.compile(r"MoneyRange\(nValueIn - tx\.GetValueOut\(\)\)")}
     rungs = [
         Rung("bad-txns-inputs-missingorspent", "!HAVE", atoms),
-        Rung("bad-txns-inputvalues-outofrange", "!INRANGE || !SUMRANGE", atoms, loop=r"for\(0; i < tx\.vin\.size\(\)\)"),
+        Rung("bad-txns-inputvalues-outofrange", "!INRANGE || !SUMRANGE", atoms, loop=VINLOOP),
         Rung("bad-txns-in-belowout", "BELOW", atoms),
         Rung("bad-txns-fee-outofrange", "!FEERANGE", atoms),
     ]
@@ -52,7 +54,7 @@ def check(ctx):
     # the input accumulator adds every input's value before the range test; the fee out-parameter is value_in - value_out
     acc_ok = False
     for st in stmts(ci.body):
-        if st.get("k") == "for" and "tx.vin.size()" in show(st.get("c")):
+        if (st.get("k") == "for" and "tx.vin.size()" in show(st.get("c"))) or (st.get("k") == "foreach" and show(st.get("range")) == "tx.vin"):
             for b in stmts(st["b"]):
                 if b.get("k") == "expr" and match(["b", "+=", ["local", "nValueIn"]], b.get("e")) and show(b["e"][3]).endswith(".out.nValue"):
                     acc_ok = True
